@@ -498,12 +498,17 @@ def _mutate(g, st):
     from porepy.fracs import split_grid
     if st["op"] in ("split_faces", "split_specific"):
         faces = _plane_faces(g, st)
+        if st["op"] == "split_specific":  # split_specific_faces expects one new lower-dimensional cell per face it really splits
+            tagged = np.asarray(g.tags["fracture_faces"]) | np.asarray(g.tags["tip_faces"]) | np.asarray(g.tags["domain_boundary_faces"])
+            faces = faces[~tagged[faces]]
         if faces.size == 0:
             return
         if st["op"] == "split_faces":
             fcells = sps.csc_matrix((np.ones(faces.size), (np.arange(faces.size), faces)), shape=(faces.size, g.num_faces))
             split_grid.split_faces(g, [fcells])
         else:
+            if np.asarray(g.frac_pairs).shape[0] != 2:  # a grid that never went through split_faces has frac_pairs of shape (1, 0)
+                g.frac_pairs = np.zeros((2, 0), dtype=int)
             split_grid.split_specific_faces(g, [sps.csc_matrix((faces.size, g.num_faces))], faces, np.arange(faces.size), 0)
         g.cell_faces.eliminate_zeros()  # as split_fractures / propagate_fracture do after splitting
         return
